@@ -381,7 +381,7 @@ OB_DEPS = dict(id='CO.deps', impl='task_dependencies',
                pre=['0 <= pr0 <= 3 and 0 <= pr1 <= 3 and 0 <= pr2 <= 3 and 0 <= pr3 <= 3', '-1 <= st1 <= 40',
                     '0 <= th1 <= 3'],
                splits=[['st1 == -1', 'th1 == 0']],
-               splits_thorough=[['st1 == -1', 'th1 == 0']] + [['%d <= st1 <= %d' % (a, a + 4)] for a in range(0, 40, 5)],
+               splits_thorough=[['st1 == -1', 'th1 == 0']] + [['%d <= st1 <= %d' % (a, a + 9)] for a in range(0, 40, 10)],
                timeout=(170, 1200),
                bounds='2 part tasks + final task + user thread; parts fail or not, user cancels or not; priority '
                       'schedules: symbolic priorities 0..3 per thread (every order in which whole threads precede each '
